@@ -238,10 +238,18 @@ pub async fn quic_frames_thread(name: String, sessions: QuicFrameSessions, input
                 let frame = frame.unwrap();
                 let sid = frame.session_id;
                 if let Some(session) = sessions.get(&sid).await {
-                    if session.is_closed() || session.send(frame).await.is_err() {
-                        drop(session);
-                        sessions.remove(&sid).await;
-                        tracing::trace!("quic recv error: sid={}", sid);
+                    // never wait for one session's consumer while dispatching for all sessions of the connection
+                    use tokio::sync::mpsc::error::TrySendError;
+                    match session.try_send(frame) {
+                        Ok(()) => {}
+                        Err(TrySendError::Full(_)) => {
+                            tracing::debug!("quic recv: sid={} queue full, dropping datagram", sid);
+                        }
+                        Err(TrySendError::Closed(_)) => {
+                            drop(session);
+                            sessions.remove(&sid).await;
+                            tracing::trace!("quic recv error: sid={}", sid);
+                        }
                     }
                 }
             },
